@@ -32,6 +32,12 @@ ASSUMPTIONS = ['the transport returns the server reply text unchanged (also for 
                'registered functions are the instrumented wrappers of pjsim.service; direct invocation means calling '
                'their bodies']
 
+class ClientSideError(JsonRpcError):
+    """A client-supplied base class for errors whose code has no registered class (it registers nothing itself)."""
+
+
+ERROR_CLASSES = {'base': JsonRpcError, 'custom': ClientSideError}
+
 SINGLE_CALL_NOTATIONS = ['call', 'dunder', 'proxy', 'send']
 SINGLE_NOTIFY_NOTATIONS = ['notify', 'send']
 BATCH_NOTATIONS = ['add', 'dunder', 'proxy', 'send', 'getitem']
@@ -221,7 +227,7 @@ def _config(w: World) -> Dict[str, Any]:
         'id_gen': ['sequential', 'randint', 'random', 'uuid'][ch.weighted([6, 3, 3, 1], 'cfg.id_gen')],
         'strict': not ch.flag(1, 4, 'cfg.nonstrict'),
         'latency': [ch.choice(gen.PAUSES, 'cfg.pre'), ch.choice(gen.PAUSES, 'cfg.post')],
-        'error_cls': 'base',
+        'error_cls': 'custom' if ch.flag(1, 4, 'cfg.error_cls') else 'base',
     }
     if cfg['server_async']:
         cfg['flavour'] = ch.choice(['async', 'mixed', 'sync'], 'cfg.flavour')
@@ -232,7 +238,8 @@ def _stack(w: World, cfg: Dict[str, Any], suffix: str) -> Stack:
     seed_generators(w)
     script = [{'pre': cfg['latency'][0], 'post': cfg['latency'][1]}] * 8
     return Stack(w, cfg['client_async'], cfg['server_async'], cfg['flavour'],
-                 client_kwargs={'id_gen_impl': ID_GENERATORS[cfg['id_gen']], 'strict': cfg['strict']},
+                 client_kwargs={'id_gen_impl': ID_GENERATORS[cfg['id_gen']], 'strict': cfg['strict'],
+                                'error_cls': ERROR_CLASSES[cfg['error_cls']]},
                  script=script, suffix=suffix)
 
 
@@ -481,7 +488,8 @@ def fam_concurrent(w: World) -> None:
     seed_generators(w)
     script = [{'pre': ch.choice(gen.PAUSES, 'net.pre'), 'post': ch.choice(gen.PAUSES, 'net.post')} for _ in range(n)]
     st = Stack(w, True, cfg['server_async'], cfg['flavour'],
-               client_kwargs={'id_gen_impl': ID_GENERATORS[cfg['id_gen']], 'strict': cfg['strict']}, script=script)
+               client_kwargs={'id_gen_impl': ID_GENERATORS[cfg['id_gen']], 'strict': cfg['strict'],
+                              'error_cls': ERROR_CLASSES[cfg['error_cls']]}, script=script)
     cl = st.client
     results: Dict[int, Tuple[Any, ...]] = {}
 
